@@ -1,6 +1,7 @@
 import ProductMD.Proofs.CINormal
 import ProductMD.Proofs.CIDistinct
 import ProductMD.Proofs.CIApi
+import ProductMD.Proofs.CIRep
 import ProductMD.Proofs.JsonRoundTrip
 /-!
 # C01 — composeinfo survives a write/read cycle unchanged
@@ -367,9 +368,9 @@ end PM
 the parser returns every dict in the order of the text, i.e. in SORTED key order.  The writer's document `j` is in
 insertion order (`id, type, date, respin, …`), so the hypothesis `hjson` of `C01_bytes` (`parse (dumps j) = .ok j`)
 is not what CPython does (`C01_hjson_witness`).  With the modelled parser the byte statement needs instead that
-the READER does not depend on the key order of the document it is given — a statement about the library's own model
-only (`hord`; it holds by evaluation on the examples, a general proof over `deserialize` is open) — plus the explicit
-representability of the written document. -/
+the READER does not depend on the key order of the document it is given (`C01_reader_order_independent`, proved in
+general in Proofs/CIOrder.lean) and that the written document is representable (`C01_written_representable`,
+Proofs/CIRep.lean). -/
 namespace PM
 open CI
 
@@ -382,37 +383,72 @@ theorem C01_hjson_witness :
                  | .error _ => false)
      | .error _ => false) = true := by decide +kernel
 
-/-- **Bytes, parser modelled.**  The text of the first `dumps()`, parsed by the modelled `json.loads`, loaded and
-dumped again, is the same text.  `hrep`: the written document is JSON-representable with readable numbers (decidable
-on any instance); `hord`: loading the key-sorted document and dumping gives what loading the document as written and
-dumping gives (reader independent of key order; about the library model only). -/
+/-- **The reader is independent of the key order of its input.**  Whatever document (without a key twice in a dict)
+`ComposeInfo.deserialize` accepts, it returns the same object for the key-sorted document — at every level, any forest
+depth.  Below the top-level container the reader reaches into the document by key only (`build_canon`: literally the same
+result, error branches included); `Variants.deserialize` iterates the flat dict, but only to build a SET of child UIDs and a
+SORTED list of top-level UIDs (`variantsDe_canon`).  (Only which error is reported first for a document that is refused
+can depend on the order.) -/
+theorem C01_reader_order_independent (doc : PyVal) (ci : ComposeInfo) (hrep : Mf.jsonRep doc = true)
+    (h : deserialize doc = .ok ci) : deserialize (PyVal.canon doc) = .ok ci :=
+  deserialize_canon hrep ci h
+
+/-- **The written document is JSON-representable** (every leaf is a str / int / bool or a list of str, no dict binds a key
+twice) **and its only integer is the compose respin.** -/
+theorem C01_written_representable (lim : Nat) (ci : ComposeInfo) (j : PyVal) (h : serialize ci = .ok j) :
+    Mf.jsonRep j = true ∧ JsonParse.numsOk lim j = JsonParse.intFits lim ci.compose.respin :=
+  serialize_rep lim ci j h
+
+/-- **Bytes, parser modelled.**  The text of the first `dumps()`, parsed by the modelled `json.loads`
+(`JsonParse.parseWith lim`, which returns every dict in the order of the text, i.e. key-sorted), loaded and dumped again,
+is the same text.  Hypotheses: the key convention `add()` establishes, and that `int()` accepts the digits of the respin
+under the interpreter's digit limit `lim` (nothing for `lim = 0`; any respin of at most 640 digits under any limit:
+`C01_bytes_parsed_unlimited`, `C01_bytes_parsed_small`). -/
 theorem C01_bytes_parsed (lim : Nat) (ci : ComposeInfo) (t : Str) (hk : WellKeyed ci)
-    (hrep : ∀ j, serialize ci = .ok j → Mf.jsonRep j = true ∧ JsonParse.numsOk lim j = true)
-    (hord : ∀ j, serialize ci = .ok j →
-      reloadDump (fun _ => .ok (PyVal.canon j)) (JsonText.dumps j) = reloadDump (fun _ => .ok j) (JsonText.dumps j)) :
+    (hnum : JsonParse.intFits lim ci.compose.respin = true) :
     dumps ci = .ok t → reloadDump (JsonParse.parseWith lim) t = .ok t := by
   intro h
   have h' := h
   unfold dumps at h'
   split at h'
   · cases h'
-  · split at h'
+  · rename_i hv
+    split at h'
     · cases h'
     · rename_i j hj
       cases h'
-      have h1 := C01_bytes (fun _ => .ok j) ci _ hk (fun j' hj' => by rw [hj] at hj'; cases hj'; rfl) h
-      rw [← hord j hj] at h1
-      have hp := JsonParse.parseWith_dumps lim j (hrep j hj).1 (hrep j hj).2
-      unfold reloadDump at h1 ⊢
+      obtain ⟨hrep, hn⟩ := serialize_rep lim ci j hj
+      have hp := JsonParse.parseWith_dumps lim j hrep (by rw [hn]; exact hnum)
+      have hread := C01_readback ci j hk hj
+      unfold reloadDump
       rw [hp]
-      exact h1
+      simp only [loadsDoc, deserialize_canon hrep _ hread, hv, dumps, C01_fixpoint ci j hk hj]
 
-/-- non-vacuity: both hypotheses hold of the example compose (layered, label, depth-3 forest) by evaluation, under
-CPython's default digit limit -/
-example : (match serialize exCI with
-    | .ok j => Mf.jsonRep j && JsonParse.numsOk JsonParse.defaultLimit j
-        && (reloadDump (fun _ => .ok (PyVal.canon j)) (JsonText.dumps j) == reloadDump (fun _ => .ok j) (JsonText.dumps j))
-    | .error _ => false) = true := by decide +kernel
+/-- the former hypothesis `hord`, now a theorem: reloading the key-sorted document and reloading the document as written
+give the same text -/
+theorem C01_reload_order_independent (ci : ComposeInfo) (j : PyVal) (hk : WellKeyed ci) (h : serialize ci = .ok j) (text : Str) :
+    reloadDump (fun _ => .ok (PyVal.canon j)) text = reloadDump (fun _ => .ok j) text := by
+  have hrep := (serialize_rep 0 ci j h).1
+  have hread := C01_readback ci j hk h
+  unfold reloadDump
+  simp only [loadsDoc, deserialize_canon hrep _ hread, hread]
+
+theorem C01_bytes_parsed_unlimited (ci : ComposeInfo) (t : Str) (hk : WellKeyed ci) :
+    dumps ci = .ok t → reloadDump (JsonParse.parseWith 0) t = .ok t :=
+  C01_bytes_parsed 0 ci t hk (JsonParse.intFits_zero _)
+
+theorem C01_bytes_parsed_small (lim : Nat) (ci : ComposeInfo) (t : Str) (hk : WellKeyed ci)
+    (hlen : (Str.natStr ci.compose.respin.natAbs).length ≤ 640) :
+    dumps ci = .ok t → reloadDump (JsonParse.parseWith lim) t = .ok t :=
+  C01_bytes_parsed lim ci t hk (JsonParse.intFits_of_length lim _ hlen)
+
+/-- non-vacuity: the example compose (layered, label, depth-3 forest) is written, its text is parsed by the modelled
+CPython parser under the default digit limit to a document that is NOT the writer's (`C01_hjson_witness`), and the reload
+gives the same text -/
+example : WellKeyed exCI ∧ JsonParse.intFits JsonParse.defaultLimit exCI.compose.respin = true ∧
+    (match dumps exCI with
+     | .ok t => (match reloadDump JsonParse.parse t with | .ok t' => t' == t | .error _ => false)
+     | .error _ => false) = true := by decide +kernel
 
 /-! ### the documented enumerations are exactly the tables the code carries -/
 def CI.sameSet (a b : List Str) : Bool := a.all (b.contains ·) && b.all (a.contains ·)
